@@ -182,8 +182,8 @@ func (ob *OrderBook) MatchAtSinglePrice(matchPrice sdkmath.LegacyDec) (quoteCoin
 		return sdkmath.Int{}, false
 	}
 	quoteCoinDiff = sdkmath.ZeroInt()
-	distributeToTicks := func(ticks []*orderBookTick) {
-		remainingAmt := matchableAmt
+	distributeToTicks := func(ticks []*orderBookTick, amt sdkmath.Int) (distributedAmt sdkmath.Int) {
+		remainingAmt := amt
 		for _, tick := range ticks {
 			tickAmt := TotalMatchableAmount(tick.orders, matchPrice)
 			if tickAmt.LTE(remainingAmt) {
@@ -193,13 +193,21 @@ func (ob *OrderBook) MatchAtSinglePrice(matchPrice sdkmath.LegacyDec) (quoteCoin
 					break
 				}
 			} else {
+				openAmt := totalOpenAmount(tick.orders)
 				quoteCoinDiff = quoteCoinDiff.Add(DistributeOrderAmountToTick(tick, remainingAmt, matchPrice))
+				remainingAmt = remainingAmt.Sub(openAmt.Sub(totalOpenAmount(tick.orders)))
 				break
 			}
 		}
+		return amt.Sub(remainingAmt)
 	}
-	distributeToTicks(ob.buys.ticks)
-	distributeToTicks(ob.sells.ticks)
+	// Sell orders are matched first: a remainder too small to be sold for a
+	// whole quote coin is left unmatched, so buy orders must only receive
+	// what has actually been sold.
+	soldAmt := distributeToTicks(ob.sells.ticks, matchableAmt)
+	if soldAmt.IsPositive() {
+		distributeToTicks(ob.buys.ticks, soldAmt)
+	}
 	matched = true
 	return
 }
@@ -281,17 +289,20 @@ func (ob *OrderBook) Match(lastPrice sdkmath.LegacyDec) (matchPrice sdkmath.Lega
 			si++
 			continue
 		}
+		// The sell tick is matched first: a remainder too small to be sold for
+		// a whole quote coin is left unmatched, so the buy tick must only receive
+		// what has actually been sold.
+		sellOpenAmt := totalOpenAmount(sellTick.orders)
+		quoteCoinDiff = quoteCoinDiff.Add(DistributeOrderAmountToTick(sellTick, sdkmath.MinInt(buyTickOpenAmt, sellTickOpenAmt), p))
+		soldAmt := sellOpenAmt.Sub(totalOpenAmount(sellTick.orders))
+		if soldAmt.IsPositive() {
+			quoteCoinDiff = quoteCoinDiff.Add(DistributeOrderAmountToTick(buyTick, soldAmt, p))
+		}
 		if buyTickOpenAmt.LTE(sellTickOpenAmt) {
-			quoteCoinDiff = quoteCoinDiff.Add(DistributeOrderAmountToTick(buyTick, buyTickOpenAmt, p))
 			bi++
-		} else {
-			quoteCoinDiff = quoteCoinDiff.Add(DistributeOrderAmountToTick(buyTick, sellTickOpenAmt, p))
 		}
 		if sellTickOpenAmt.LTE(buyTickOpenAmt) {
-			quoteCoinDiff = quoteCoinDiff.Add(DistributeOrderAmountToTick(sellTick, sellTickOpenAmt, p))
 			si++
-		} else {
-			quoteCoinDiff = quoteCoinDiff.Add(DistributeOrderAmountToTick(sellTick, buyTickOpenAmt, p))
 		}
 		matchPrice = p
 		matched = true
